@@ -158,6 +158,13 @@ Definition step (s : sstate) (o : op) : sstate * list emission :=
       else (mkS (s_ver s) true false e (s_cur s) (s_act s), [])
   end.
 
+(* the connection Resume() makes from a *State whose local epoch is e, WHEN IT ACCEPTS IT: established from the start
+   at that epoch (createConn with a ResumeState: the handshake is skipped).  The guard of generateInternalState -
+   local epoch <> 0 and a master secret - is the hypothesis of the theorems about this start state; the harness
+   observes whether it holds for every State that Resume accepts (States handed out by the library while the
+   handshake is still in epoch 0 included: VerifyConnection argument, ConnectionState() inside a callback) *)
+Definition resumed_start (e : N) : sstate := mkS V12 true false e None false.
+
 (* trace: every emission tagged with "was the handshake established when it was emitted" *)
 Fixpoint run (s : sstate) (ops : list op) : list (bool * emission) :=
   match ops with
